@@ -8,6 +8,8 @@ The oracle does not merge anything: every input row carries a unique id, and the
 declared direction.  Rejection clause: an input that is not sorted as declared must end in ValueError.
 Near-tie check: the same oracle on ladders of nearly equal scores (1 ulp .. 2**-20 relative apart, tiny / huge /
 negative / around zero): the order is the exact order of the floats, no tolerance.
+Missing-value check: inputs whose payload columns hold nulls / empty cells and integers above 2**53: cells compared
+by value AND type with the written rows (merge_sort from Parquet), by exact value for rows delivered through pandas.
 """
 import itertools
 import json
@@ -811,6 +813,307 @@ def check_column_names(tier, seed):
     return ck
 
 
+# ------------------------------------------------------------------------------------------------ (e) missing values
+# "Unmodified" covers the cells a row does NOT have as well: Parquet columns of every type may hold nulls, and text
+# tables empty cells.  A reader that builds its rows through a typed table of the rows it happens to read together
+# re-types a whole chunk as soon as one of its cells is missing (None -> NaN, every integer of the chunk -> float,
+# integers above 2**53 rounded), and which rows are hit depends on the reader chunk size.
+NULL_COLS = ["id", "score", "k", "t", "w", "x"]                 # payload: k int64, t bool, w string, x float64
+NULL_PAYLOAD = ["k", "t", "w", "x"]
+NULL_SCHEMA = [("id", pa.string()), ("score", pa.float64()), ("k", pa.int64()), ("t", pa.bool_()),
+               ("w", pa.string()), ("x", pa.float64())]
+BIG = 2 ** 53
+
+
+def null_rows(slot, seq, code=""):
+    """rows (best score first) of input `slot`; code: one 4-letter word per row, comma separated, one letter per
+    payload column k / t / w / x: "." the plain value, "n" a null, "B" (column k) an integer above 2**53"""
+    words = code.split(",") if code else []
+    rows = []
+    for j, v in enumerate(seq):
+        row = {"id": "s%dr%d" % (slot, j), "score": VALS[v], "k": slot * 100 + j, "t": j % 2 == 0,
+               "w": "w%d_%d" % (slot, j), "x": slot + 0.25 * j + 0.125}
+        for c, what in zip(NULL_PAYLOAD, words[j] if j < len(words) else "...."):
+            if what == "n":
+                row[c] = None
+            elif what == "B" and c == "k":
+                row[c] = (BIG + 1 + 2 * (slot * 10 + j)) * (-1 if (slot + j) % 3 == 2 else 1)   # odd: no float64
+        rows.append(row)
+    return rows
+
+
+def _cell_code(seq, cells):
+    """cells: {row: {column: "null" | "big"}} -> the code string of null_rows"""
+    return ",".join("".join({"null": "n", "big": "B"}.get(cells.get(j, {}).get(c), ".") for c in NULL_PAYLOAD)
+                    for j in range(len(seq)))
+
+
+def _missing(v):
+    return v is None or v is pd.NA or (isinstance(v, (float, np.floating)) and math.isnan(v))
+
+
+def _cell_strict(got, exp):
+    """the cell as pyarrow's to_pylist() defines it: same Python type, same value, None for a null"""
+    if exp is None:
+        return got is None
+    return type(got) is type(exp) and got == exp
+
+
+def _cell_same(got, exp, text):
+    """got is the cell exp in another representation of the same value: missing (None / NaN) for missing, a number
+    of the same exact value for a number (14 or 14.0; an int above 2**53 is NOT equal to its rounded float), a bool
+    for a bool, a string for a string; floats from text up to the tolerance of the text parser"""
+    if _missing(exp):
+        return _missing(got)
+    if _missing(got):
+        return False
+    ke, kg = _kind(exp), _kind(got)
+    if ke in "bs":
+        return kg == ke and got == exp
+    if kg not in "if":
+        return False
+    if text and ke == "f":
+        return math.isclose(float(got), float(exp), rel_tol=1e-12, abs_tol=1e-12)
+    a = int(got) if kg == "i" else float(got)
+    b = int(exp) if ke == "i" else float(exp)
+    return a == b                                   # Python compares int with float exactly
+
+
+def _rounded_big(got, exp):
+    """got is the float nearest to the integer exp, which no float64 holds exactly"""
+    return (_kind(exp) == "i" and abs(int(exp)) > BIG and _kind(got) == "f" and not _missing(got)
+            and float(got) == float(int(exp)) and int(got) != int(exp))
+
+
+def _cell_whole(got, ref, text):
+    """the cell as the whole read of the input delivers it: same kind (missing / bool / int / float / string), same
+    value"""
+    if _missing(ref) or _missing(got):
+        return _missing(ref) and _missing(got)
+    return _kind(got) == _kind(ref) and _cell_same(got, ref, text)
+
+
+def judge_cells(out_rows, inputs, whole, ascending, cols, strict, text=False):
+    """Every id once, scores monotone, every cell unmodified.  strict: the cell must be the to_pylist() cell of the
+    input row (type and value).  Otherwise (rows delivered through pandas tables): the cell must be the cell of the
+    input row in some representation of the same exact value, or the cell as the whole read of that input
+    (whole: id -> row) delivers it."""
+    by_id = {r["id"]: r for rows in inputs for r in rows}
+    seen = {}
+    for pos, r in enumerate(out_rows):
+        if not isinstance(r, dict) or list(r.keys()) != list(cols):
+            return "row-shape", "output row %d is %r, expected the columns %s" % (pos, r, cols)
+        rid = r.get("id")
+        if rid not in by_id:
+            return "row-modified", "output row %d has id %r which is no input row" % (pos, rid)
+        if rid in seen:
+            return "row-duplicated", "input row %s emitted at positions %d and %d" % (rid, seen[rid], pos)
+        seen[rid] = pos
+        for c in cols:
+            exp = by_id[rid][c]
+            if strict:
+                ok = _cell_strict(r[c], exp)
+            else:
+                ok = _cell_same(r[c], exp, text) or (whole is not None and _cell_whole(r[c], whole[rid][c], text))
+            if not ok:
+                return ("int-above-2^53-rounded-though-whole-read-exact" if not strict and _rounded_big(r[c], exp) else "row-modified",
+                        "row %s column %s: %r (%s), input had %r" % (rid, c, r[c], type(r[c]).__name__, exp))
+    if len(seen) != len(by_id):
+        missing = sorted(set(by_id) - set(seen))
+        return "row-lost", "%d of %d input rows missing from the output: %s" % (len(missing), len(by_id), missing[:6])
+    sc = [float(r["score"]) for r in out_rows]
+    for j in range(len(sc) - 1):
+        if (sc[j] > sc[j + 1]) if ascending else (sc[j] < sc[j + 1]):
+            return "not-sorted", "scores %s are not monotone as declared at position %d" % (sc, j)
+    return None
+
+
+def _text_cell(v):
+    return "" if v is None else repr(v) if isinstance(v, float) else str(v)
+
+
+def run_null_case(d, inp):
+    """One evaluation of the missing-value check; inp is the recorded input of the case (files are written here).
+    The merge is run once per chunk size of inp["chunks"]; every run is judged on its own, then the runs are
+    compared with each other (the rows must not depend on the chunk size)."""
+    import mokapot.utils as mu
+    from mokapot.tabular_data import ParquetFileReader
+    ascending = bool(inp.get("ascending", False))
+    fmt = inp["format"]
+    rows_desc = [null_rows(slot, tuple(seq), code) for slot, (seq, code) in enumerate(zip(inp["seqs"], inp["cells"]))]
+    inputs = [list(reversed(rows)) if ascending else rows for rows in rows_desc]
+    total = sum(len(r) for r in inputs)
+    d = Path(d)
+    d.mkdir(parents=True, exist_ok=True)
+    paths, whole = [], {}
+    for slot, rows in enumerate(inputs):
+        path = d / ("in%d.%s" % (slot, fmt))
+        if fmt == "parquet":
+            pq.write_table(pa.Table.from_pylist(rows, schema=pa.schema(NULL_SCHEMA)), path, row_group_size=2)
+            ref = pq.read_table(path).to_pandas()
+        else:
+            with open(path, "w") as f:
+                f.write("\t".join(NULL_COLS) + "\n")
+                for r in rows:
+                    f.write("\t".join(_text_cell(r[c]) for c in NULL_COLS) + "\n")
+            ref = pd.read_csv(path, sep="\t", index_col=False)
+        for r in _frame_to_dicts(ref):
+            whole[r["id"]] = r
+        paths.append(path)
+    cols = NULL_COLS if inp.get("columns") is None or inp.get("path") == "merge_readers" else inp["columns"]
+    outs = {}
+    for chunk in inp["chunks"]:
+        try:
+            if inp["impl"] == "merge_sort":
+                old = mu.MERGE_SORT_CHUNK_SIZE
+                mu.MERGE_SORT_CHUNK_SIZE = chunk
+                try:
+                    out = [dict(r) for r in itertools.islice(mu.merge_sort(paths, "score"), total + 3)]
+                finally:
+                    mu.MERGE_SORT_CHUNK_SIZE = old
+            else:
+                out = consume([ParquetFileReader(p) for p in paths], inp["path"], ascending, chunk,
+                              inp.get("columns"), total)
+        except Exception as e:                                        # noqa: BLE001
+            return "raises-" + type(e).__name__, "chunk size %d: %s" % (chunk, str(e)[:200])
+        strict = inp["impl"] == "merge_sort" and fmt == "parquet"
+        bad = judge_cells(out, inputs, whole, ascending, cols, strict, text=fmt == "csv")
+        if bad:
+            return bad[0], "chunk size %d: %s" % (chunk, bad[1])
+        outs[chunk] = {r["id"]: r for r in out}
+    first = inp["chunks"][0]
+    for chunk in inp["chunks"][1:]:
+        for rid, r in outs[chunk].items():
+            for c in cols:
+                a, b = outs[first][rid][c], r[c]
+                if not _cell_same(b, a, fmt == "csv"):
+                    exp = next(x[c] for rows in inputs for x in rows if x["id"] == rid)
+                    cls = ("int-above-2^53-exact-or-rounded-depending-on-chunk-size"
+                           if {True} == {_cell_same(v, exp, False) or _rounded_big(v, exp) for v in (a, b)}
+                           else "cell-value-depends-on-chunk-size")
+                    return cls, "row %s column %s: %r with chunk size %d, %r with %d" % (rid, c, a, first, b, chunk)
+    return None
+
+
+def null_cases(tier, seed):
+    """-> [(tuple of sequences, {slot: {row: {column: "null" | "big"}}})]"""
+    rng = random.Random(seed + 3)
+    quick = tier == "quick"
+    cases = []
+    # systematic: one null in one payload column of a 3- or 4-row input, at every row position, alone and next to a
+    # second input without nulls; the integer cells of the neighbouring rows small / above 2**53
+    for c in NULL_PAYLOAD:
+        for seq in ((0, 1, 2), (0, 0, 1, 2)):
+            for pos in range(len(seq)):
+                for big in (False, True):
+                    cells = {pos: {c: "null"}}
+                    if big:
+                        for j in range(len(seq)):
+                            if j != pos or c != "k":
+                                cells.setdefault(j, {})["k"] = "big"
+                    cases.append(((seq,), {0: cells}))
+                    cases.append((((1,), seq) if pos % 2 else (seq, (0, 2)), {(1 if pos % 2 else 0): cells}))
+    # a whole column / a whole row of nulls, every row of a 1- and 2-row input
+    for seq in ((1,), (0, 2)):
+        cases.append(((seq, (0, 1)), {0: {j: {c: "null" for c in NULL_PAYLOAD} for j in range(len(seq))}}))
+        for c in NULL_PAYLOAD:
+            cases.append((((0, 1, 1), seq), {1: {j: {c: "null"} for j in range(len(seq))}}))
+    # an input WITHOUT nulls whose integer cells are above 2**53, merged with an input that has a null in that column
+    for q in range(8):
+        a_seq, b_seq = ((0, 1, 2), (0, 1, 1, 2))[q % 2], ((0, 1), (1, 2), (0, 0, 2))[q % 3]
+        a_spec = {j: {"k": "big"} for j in range(len(a_seq))}
+        b_spec = {q % len(b_seq): {"k": "null"}}
+        cases.append(((a_seq, b_seq), {0: a_spec, 1: b_spec}) if q % 4 < 2 else ((b_seq, a_seq), {0: b_spec, 1: a_spec}))
+    full = sorted_seqs(4 if quick else 6)
+    for q in range(60 if quick else 1500):
+        k = 1 + q % (4 if quick else 8)
+        seqs = tuple(rng.choice(full) for _ in range(k))
+        p_null = (0.15, 0.35, 0.6)[q % 3]
+        spec = {}
+        for slot, seq in enumerate(seqs):
+            for j in range(len(seq)):
+                for c in NULL_PAYLOAD:
+                    u = rng.random()
+                    if u < p_null:
+                        spec.setdefault(slot, {}).setdefault(j, {})[c] = "null"
+                    elif c == "k" and u > 0.7:
+                        spec.setdefault(slot, {}).setdefault(j, {})[c] = "big"
+        cases.append((seqs, spec))
+    return cases
+
+
+def _null_nontrivial(rows_per_input):
+    """some input has a non-float payload column with a null AND a non-null cell (a mixed reader chunk is possible)"""
+    for rows in rows_per_input:
+        for c in ("k", "t", "w"):
+            vals = [r[c] is None for r in rows]
+            if any(vals) and not all(vals):
+                return True
+    return False
+
+
+def _null_task(task):
+    d, items = task
+    ev = _Events()
+    for j, seqs, spec in items:
+        codes = [_cell_code(seq, spec.get(slot, {})) for slot, seq in enumerate(seqs)]
+        rows = [null_rows(slot, seq, code) for slot, (seq, code) in enumerate(zip(seqs, codes))]
+        n = max(len(s) for s in seqs)
+        nt = _null_nontrivial(rows)
+        runs = [dict(impl="merge_sort", format="parquet", chunks=sorted({1, 2, 3, n + 1})),
+                dict(impl="merge_sort", format="csv", chunks=sorted({1, 2, 3, n + 1}))]
+        colreqs = [None, ["score", "id", "k"], list(reversed(NULL_COLS))]
+        for q in range(2):
+            p = (3 * j + 3 * q) % len(PATHS)
+            runs.append(dict(impl="table", format="parquet", ascending=(j + q) % 2 == 1, path=PATHS[p],
+                             columns=colreqs[(j + p // 3) % len(colreqs)], chunks=sorted({1, 2, n + 1})))
+        for nrun, run in enumerate(runs):
+            inp = dict(run, seqs=[list(q) for q in seqs], cells=codes)
+            ev.case(("nulls", json.dumps(inp, sort_keys=True)), nontrivial=nt)
+            bad = run_null_case(Path(d) / ("n%d_%d" % (j, nrun)), inp)
+            if bad:
+                who = "merge_sort" if run["impl"] == "merge_sort" else "table-merger"
+                ev.violation("missing-values-%s-%s-%s" % (who, run["format"], bad[0]),
+                             "%s%s: %s" % (who, " via " + run["path"] if "path" in run else "", bad[1]), inp)
+    return ev.events
+
+
+def check_missing_values(tier, seed):
+    cases = null_cases(tier, seed)
+    quick = tier == "quick"
+    n_rnd = 60 if quick else 1500
+    ck = Check("merge_rows_unmodified_missing_values",
+               "mokapot.utils.merge_sort (parquet_row_iterator, csv_row_iterator), "
+               "mokapot.streaming.MergedTabularDataReader / merge_readers over ParquetFileReader",
+               "%d cases over the columns id (string) / score / k (int64) / t (bool) / w (string) / x (float64): %d "
+               "systematic (one null in one payload column of a 3- or 4-row input at every row position, the other "
+               "integer cells small or above 2**53 (odd, so that no float64 holds them), alone and next to a second "
+               "input; a whole column / a whole row of nulls in a 1- and a 2-row input; 8 pairs of an input without nulls "
+               "whose integers are above 2**53 and an input with a null in the integer column), %d random "
+               "(random.Random(%d)): 1..%d inputs of 1..%d rows, every payload cell null with probability 0.15 / "
+               "0.35 / 0.6 (rotating), integer cells above 2**53 with probability 0.3; scores over the 3 values %s; "
+               "each case: merge_sort from Parquet (row groups of 2) and from tab-separated text (null = empty cell) "
+               "at EVERY MERGE_SORT_CHUNK_SIZE of {1, 2, 3, longest input + 1}, and 2 of the 8 access paths of the "
+               "table merger over Parquet readers at every reader_chunk_size of {1, 2, longest input + 1} "
+               "(direction and column request rotating with the case number)"
+               % (len(cases), len(cases) - n_rnd, n_rnd, seed + 3, 4 if quick else 8, 4 if quick else 6, VALS),
+               "oracle: every id once, scores monotone, every cell unmodified. merge_sort from Parquet: the cell "
+               "must be the cell of the written row as pyarrow's to_pylist() defines it (same Python type, same "
+               "value, None for a null). Rows delivered through pandas tables (merge_sort from text, table merger): "
+               "the cell must hold the exact value of the written cell in some representation (None / NaN for a "
+               "null, int or float of exactly the same value for an integer, bool for bool, string for string) or be "
+               "the cell as an independent whole read of that input (pyarrow's to_pandas / pandas.read_csv of the "
+               "whole file) delivers it; in addition the values delivered with the different chunk sizes must be "
+               "the same (an integer delivered exactly with one chunk size and rounded with another depends on the "
+               "chunk size); non-trivial = some input has an int / bool / string column with a null and a non-null "
+               "cell (a reader chunk can hold both)")
+    with scratch("c14e_") as d:
+        _run_tasks(ck, _null_task,
+                   [(str(d), part) for part in _split([(j, s, q) for j, (s, q) in enumerate(cases)], 14)])
+    return ck
+
+
+
 # ------------------------------------------------------------------------------------------------ plumbing
 class _Events:
     """Recorder with the interface of Check, so that worker processes can report back."""
@@ -865,6 +1168,10 @@ def REPLAY(check_name, violation):
         bad = run_rejection(tuple(inp["seq"]), tuple(tuple(o) for o in inp["others"]), inp["position"],
                             inp["ascending"], inp["path"], inp["reader_chunk"])
         return {"violated": bool(bad), "detail": bad}
+    if "cells" in inp:                                     # missing-value check: the null pattern travels with the case
+        with scratch("c14p_") as d:
+            bad = run_null_case(d, inp)
+        return {"violated": bool(bad), "detail": bad}
     if "header" in inp:                                    # column-name check: the header travels with the case
         with scratch("c14p_") as d:
             bad = run_named(d, inp)
@@ -906,7 +1213,7 @@ if __name__ == "__main__":
     np.random.seed(a.seed)
     emit(_timed([(check_merge_sort, a.tier, a.seed), (check_table_merger, a.tier, a.seed),
                  (check_rejection, a.tier, a.seed), (check_near_ties, a.tier, a.seed),
-                 (check_column_names, a.tier, a.seed)]),
+                 (check_column_names, a.tier, a.seed), (check_missing_values, a.tier, a.seed)]),
          ["inputs are non-empty, finite scores, sorted as declared (except in the rejection check); three score "
           "values generate every tie pattern but not every spacing of scores (the near-tie check adds ladders of "
           "3 nearly equal values: spacings from 1 ulp to 2**-20 relative, not every spacing)",
@@ -920,6 +1227,13 @@ if __name__ == "__main__":
           "punctuation, leading underscore, keyword, 'index'); names are unique within a header, non-empty, without "
           "tab / quote / newline / '#' / leading or trailing blank (the quoting rules of the text format are not the "
           "subject here), and the row id is always a string column",
+          "missing values: only the missing-value check holds nulls / empty cells, only in the payload columns (id and "
+          "score are always present), over one fixed header of an int64, a bool, a string and a float64 column; "
+          "Parquet files carry their types, so merge_sort from Parquet is judged strictly on type and value; rows "
+          "that the code under test delivers through pandas tables (text inputs, the table merger) are not required "
+          "to keep the representation of a cell (None or NaN, 14 or 14.0, also when this changes with the chunk "
+          "size), only its exact value, and a cell equal to what a whole read of the input delivers is accepted "
+          "too; the table merger sees nulls through Parquet readers only (frame and text readers: no nulls)",
           "merge_sort is only specified for descending order; the rejection clause concerns the table merger only",
           "the numbers of inputs above 2 (quick) are covered exhaustively only for short inputs, otherwise by "
           "seeded random sampling (see the bound of each check)"])
